@@ -62,8 +62,12 @@ m("C04-join-does-not-relabel", "C04", "user_actions/user_add_edge.py",
   "            new_track_id = self.tracks.get_track_id(source)\n            new_lineage_id", "            new_track_id = self.tracks.get_track_id(target)\n            new_lineage_id")
 m("C04-assign-tracklets-degree-gt-2", "C04", "annotators/_track_annotator.py",
   "if degree >= 2]", "if degree > 2]")
-m("C04-walk-ignores-id-change", "C04", "annotators/_track_annotator.py",
-  "                    else:\n                        still_in_tracklet = False", "                    else:\n                        still_in_tracklet = True")
+m("C04-walk-stops-before-dividing-node", "C04", "annotators/_track_annotator.py",
+  "                    if self.tracks.get_track_id(node) == old_tracklet_id:",
+  "                    if self.tracks.get_track_id(node) == old_tracklet_id and (self.tracks.graph.out_degree(node) < 2 or node == start_node):")
+m("C05-lineage-walk-first-successor-only", "C05", "annotators/_track_annotator.py",
+  "                next_nodes.extend(self.tracks.graph.successors(node))",
+  "                next_nodes.extend(list(self.tracks.graph.successors(node))[:1] if not still_in_tracklet else self.tracks.graph.successors(node))")
 # ----------------------------------------------------------------------------- C05
 m("C05-orphan-keeps-lineage", "C05", "user_actions/user_delete_edge.py",
   "            new_lineage_id = self.tracks.get_next_lineage_id()\n", "            new_lineage_id = None\n")
